@@ -106,6 +106,10 @@ func parseRoute(node *treeNode, path string, method string, info *RouteInfo) (pa
 //	`/foo/bar/` will be matched by `/foo/bar/:param` or `/foo/bar/*`
 //	`/`         will be matched by `/` first and then `/:param` or `/*`
 func findRoute(node *treeNode, path string, method string, params *Params) (info *RouteInfo) {
+	if path == "" {
+		// net/http passes an empty URL.Path for `CONNECT host:port` and absolute-form requests
+		path = "/"
+	}
 	var length, left, right int = len(path), 0, 0
 	if length == 1 {
 		if n := node.methodNodeOrNil(method); n != nil {
